@@ -302,6 +302,72 @@ def rule_ax_fwd(repo, col, which=None):
                           'subsample' % p)
 
 
+
+def _axis_under_flag(f, expr, flag, value):
+    """Value of the constant-string expression `expr` in function `f` when
+    the boolean parameter `flag` has `value`; None when not evaluable.
+    Straight-line code with if/else on the flag and conditional expressions
+    is followed."""
+    def truth(t):
+        if isinstance(t, ast.Name) and t.id == flag:
+            return value
+        if isinstance(t, ast.UnaryOp) and isinstance(t.op, ast.Not):
+            r = truth(t.operand)
+            return None if r is None else not r
+        if isinstance(t, ast.Compare) and len(t.ops) == 1 and isinstance(
+                t.left, ast.Name) and t.left.id == flag and isinstance(
+                t.comparators[0], ast.Constant) and isinstance(
+                t.comparators[0].value, bool):
+            c = t.comparators[0].value
+            if isinstance(t.ops[0], (ast.Is, ast.Eq)):
+                return value == c
+            if isinstance(t.ops[0], (ast.IsNot, ast.NotEq)):
+                return value != c
+        return None
+
+    def ev(e, env):
+        if e is None:
+            return 'sample'
+        if isinstance(e, ast.Constant):
+            return e.value
+        if isinstance(e, ast.Name):
+            return env.get(e.id)
+        if isinstance(e, ast.IfExp):
+            t = truth(e.test)
+            if t is None:
+                return None
+            return ev(e.body if t else e.orelse, env)
+        return None
+
+    def run(body, env):
+        for st in body:
+            if any(x is expr for x in ast.walk(st)) and not isinstance(
+                    st, ast.If):
+                return ev(expr, env), True
+            if isinstance(st, ast.If):
+                t = truth(st.test)
+                if t is None:
+                    if any(x is expr for x in ast.walk(st)):
+                        return None, True
+                    continue
+                r, done = run(st.body if t else st.orelse, env)
+                if done:
+                    return r, True
+            elif isinstance(st, ast.Assign) and len(st.targets) == 1 and \
+                    isinstance(st.targets[0], ast.Name):
+                env[st.targets[0].id] = ev(st.value, env)
+            elif isinstance(st, (ast.For, ast.With)):
+                if isinstance(st, ast.For) and any(
+                        x is expr for x in ast.walk(st.iter)):
+                    return ev(expr, env), True
+                r, done = run(st.body, env)
+                if done:
+                    return r, True
+        return None, False
+    if expr is None:
+        return 'sample'
+    return run(f.body, {})[0]
+
 def rule_cli_fwd(repo, col, which=None):
     """CLI commands pass their axis / count options to the library call
     they wrap: normalize-table (axis), table-ids (--observations), head
@@ -332,18 +398,23 @@ def rule_cli_fwd(repo, col, which=None):
     if 'ids' in sel:
         rel = 'biom/cli/table_ids.py'
         f = repo.func(rel, 'summarize_table')
-        ok = False
+        ok = None
         node = f
         for n in body_walk(f):
             if isinstance(n, ast.Call) and (call_name(n) or '').endswith(
                     '.ids'):
                 a = kwarg(n, 'axis')
                 node = n
-                if isinstance(a, ast.IfExp) and \
-                        dotted(a.test) == 'observations' and \
-                        const_str(a.body) == 'observation' and \
-                        const_str(a.orelse) == 'sample':
+                got = tuple(_axis_under_flag(f, a, 'observations', v)
+                            for v in (True, False))
+                if got == ('observation', 'sample'):
                     ok = True
+                elif None not in got:
+                    ok = False
+        if ok is None:
+            col.unknown(rule, rel, 'summarize_table', 'flag:observations',
+                        node, 'axis argument not evaluable under the flag')
+            ok = True
         col.check(ok, rule, rel, 'summarize_table', 'flag:observations',
                   node, '--observations selects the observation axis',
                   'the --observations flag does not select the observation '
